@@ -69,7 +69,9 @@ DonateNext(s, u, x) == [s EXCEPT !.bal = @ ++ x, !.w = [@ EXCEPT ![u] = @ -- x]]
 Ok(s) == [ok |-> TRUE, s |-> s]
 Fail(s) == [ok |-> FALSE, s |-> s]
 
-\* a script atom is a record with field a \in {"repay","fail","nothing","deposit","withdraw","collect","loan"}
+\* a script atom is a record with field a \in {"repay","fail","nothing","deposit","withdraw","collect","loan","fcb"}
+\* ("fcb": the borrower sends the vault a forged Callback(AfterTrade) of its own - the callback is the vault's message to
+\*  itself and must be refused from anybody else, loan in flight or not, which fails the borrower's whole transaction)
 RECURSIVE RunScript(_, _, _), RunLoan(_, _, _)
 
 AfterTrade(s, old, amt, due0) ==
@@ -85,6 +87,7 @@ AfterTrade(s, old, amt, due0) ==
 RunAtom(s, at, target) ==
   CASE at.a = "nothing" -> Ok(s)
     [] at.a = "fail" -> Fail(s)
+    [] at.a = "fcb" -> Fail(s)
     [] at.a = "repay" ->
          IF (at.x = Zero /\ ZeroFails(s)) \/ s.aw \prec at.x THEN Fail(s)
          ELSE IF target = "vault" THEN Ok([s EXCEPT !.aw = @ -- at.x, !.bal = @ ++ at.x])
